@@ -184,32 +184,50 @@ def unser (out : List String) : Option (List Genbank.Sequence) :=
 def repeatedKeys (f : RFeature) : List Str :=
   (f.quals.map (·.1)).filter fun k => (f.quals.filter (·.1 == k)).length > 1
 
-/-- a reply with the qualifiers of the repeated keys taken out, feature by feature (`none`: another number of features) -/
-def maskRepeated (r : GbRec) (q : Genbank.Sequence) : Option Genbank.Sequence :=
+/-- the keys of the qualifiers of a feature whose stated value holds a quotation mark: outside the quantifier
+("values over printable ASCII other than the double quote"), not judged -/
+def quotedKeys (f : RFeature) : List Str := (f.quals.filter fun q => List.elem '"' q.2).map (·.1)
+
+/-- a reply with the qualifiers of the keys `ks` names taken out, feature by feature (`none`: another number of features) -/
+def maskKeys (ks : RFeature → List Str) (r : GbRec) (q : Genbank.Sequence) : Option Genbank.Sequence :=
   if q.features.length != r.features.length then none else
   some { q with features := (List.zip r.features q.features).map fun p =>
-    { p.2 with attrs := p.2.attrs.filter fun kv => !(repeatedKeys p.1).contains kv.1 } }
+    { p.2 with attrs := p.2.attrs.filter fun kv => !(ks p.1).contains kv.1 } }
 
-/-- `vs` occur in `t` in this order, disjoint -/
-def occurInOrder : List Str → Str → Bool
-  | [], _ => true
-  | v :: vs, t =>
-    match index t v with
-    | some i => occurInOrder vs (t.drop (i + v.length))
-    | none => false
+/-- two lists of records agree, record by record, outside the qualifiers `ks` names -/
+def eqMasked (ks : RFeature → List Str) (rs : List GbRec) (as bs : List Genbank.Sequence) : Bool :=
+  as.length == rs.length && bs.length == rs.length &&
+  (List.zip rs (List.zip as bs)).all fun p =>
+    match maskKeys ks p.1 p.2.1, maskKeys ks p.1 p.2.2 with
+    | some a, some b => ser a == ser b
+    | _, _ => false
 
-/-- nothing stated under a repeated key is lost: the reply keeps one value for the key that holds every stated value, in
-file order, apart from each other (a joined form), or the reply repeats the key with exactly the stated values -/
-def repeatedKept (r : GbRec) (q : Genbank.Sequence) : Bool :=
+/-- the separators a joined value may use -/
+def joinSeparators : List Str :=
+  [" ", ";", "; ", ",", ", ", "|", " | ", "/", " / ", "\n", "\t"].map String.toList
+
+/-- per repeated key of every feature, a test of what the reply gives for that key against the stated values -/
+def repeatedAll (r : GbRec) (q : Genbank.Sequence) (test : List Str → List Str → Bool) : Bool :=
   q.features.length == r.features.length &&
   (List.zip r.features q.features).all fun p =>
     (repeatedKeys p.1).all fun k =>
-      let stated := (p.1.quals.filter (·.1 == k)).map (·.2)
-      let got := (p.2.attrs.filter (·.1 == k)).map (·.2)
-      got == stated ||
-        (match got with
-         | [t] => occurInOrder stated t && t.length ≥ (stated.map List.length).sum + (stated.length - 1)
-         | _ => false)
+      test ((p.1.quals.filter (·.1 == k)).map (·.2)) ((p.2.attrs.filter (·.1 == k)).map (·.2))
+
+/-- nothing stated under a repeated key is lost: the reply repeats the key with exactly the stated values, or keeps one
+value that is the stated values joined in file order by one of `joinSeparators` -/
+def repeatedKept (r : GbRec) (q : Genbank.Sequence) : Bool :=
+  repeatedAll r q fun stated got =>
+    got == stated || (match got with
+      | [t] => joinSeparators.any fun sep => t == join sep stated
+      | _ => false)
+
+/-- the loss the known finding names: of the stated values of a repeated key the reply keeps exactly ONE (the key is
+there, once, with one of the stated values); a missing key or a text the record does not state is not the finding -/
+def repeatedOneKept (r : GbRec) (q : Genbank.Sequence) : Bool :=
+  repeatedAll r q fun stated got =>
+    match got with
+    | [t] => stated.contains t
+    | _ => false
 
 /-- `parseLocation` (property C02's model) panics on this location text -/
 def locPanics (loc : Str) : Bool := match Location.parseLocation loc with | .panic => true | _ => false
@@ -274,42 +292,55 @@ def judge (f out : List String) : Verdict :=
     let pairs := zipLay c.recs c.lay.recs
     let single := c.mode == "parse" || c.mode == "read"
     let flat := c.mode == "flat" || c.mode == "readflat" || c.mode == "readflatgz"
-    let inDom := c.recs.all (fun r => wfLoose r && r.seq.length ≥ 1 && quoteFreeValues r) && c.recs.length ≥ 1
+    let inDom := c.recs.all (fun r => wfLoose r && r.seq.length ≥ 1) && c.recs.length ≥ 1
       && (if single then c.recs.length == 1 && c.lay.header.isNone else true)
       && (flat == c.lay.header.isSome)
       && pairs.all (fun p => noSlashEnd p.1 p.2)
     let nfeat := (c.recs.map (·.features.length)).sum
     let multiloc := pairs.any (fun p => (zipF p.1.features p.2.feats).any (fun q => (cutLoc q.2.loc q.1.loc).length > 1))
     -- the known-finding class C01-repeated-qualifier-key: some feature states a qualifier key more than once.
-    --  * `confined`: apart from the qualifiers of the repeated keys (whatever values the reply gives them, or none), the reply
-    --    is what the records state; a failure that is confined is the known finding (any loss on the repeated key), a
-    --    difference anywhere else is a plain FAIL
-    --  * `kept`: nothing stated under a repeated key is lost (the key repeated with the stated values, or one joined value
-    --    holding all of them in order): then the property holds there — a repaired implementation passes, and its
+    --  * `confined`: apart from the qualifiers of the repeated keys the reply is what the records state (a difference
+    --    anywhere else is a plain FAIL)
+    --  * `oneKept`: each repeated key is there once, with ONE OF its stated values — the loss the finding names (first, last,
+    --    any of them); a missing key or a text the record does not state is a plain FAIL
+    --  * `kept`: nothing stated under a repeated key is lost (the key repeated with the stated values, or one value that is
+    --    the stated values joined in order by a separator): then the property holds there — a repaired implementation passes, and its
     --    difference from the model, which mirrors the defect (last value wins), is drift, not a correspondence failure
-    --  * on a confined reply (passing or tagged) the comparison with the model is not a correspondence failure: the model
-    --    mirrors ONE way of losing values (the last wins); another loss on the same key is the same known finding
+    --  * on a passing or tagged reply the comparison with the model is not a correspondence failure: the model mirrors
+    --    ONE way of losing values (the last wins); keeping another of the stated values is the same known finding
     let inClass := c.recs.any repeatedQualKey
     let replyRecs := unser outN
+    -- qualifier values with a quotation mark inside are outside the quantifier: those QUALIFIERS are not judged (masked on
+    -- both sides), everything else of the record and the other records of the file are (`hasQ`: the case holds such a value)
+    let hasQ := !c.recs.all quoteFreeValues
+    let stated := c.recs.map toSequence
     let confined := match replyRecs with
-      | some qs => qs.length == c.recs.length && (List.zip c.recs qs).all fun p =>
-          match maskRepeated p.1 p.2, maskRepeated p.1 (toSequence p.1) with
-          | some a, some b => ser a == ser b
-          | _, _ => false
+      | some qs => eqMasked (fun f => repeatedKeys f ++ quotedKeys f) c.recs qs stated
       | none => false
+    let plain := if hasQ then (match replyRecs with | some qs => eqMasked quotedKeys c.recs qs stated | none => false)
+                 else outN == expected
     let kept := match replyRecs with
       | some qs => qs.length == c.recs.length && (List.zip c.recs qs).all fun p => repeatedKept p.1 p.2
       | none => false
-    let pass := outN == expected || (inClass && confined && kept)
+    let oneKept := match replyRecs with
+      | some qs => qs.length == c.recs.length && (List.zip c.recs qs).all fun p => repeatedOneKept p.1 p.2
+      | none => false
+    let pass := plain || (inClass && confined && kept)
     let repaired := inClass && pass
-    let kf := if inClass && !pass && confined then " kf:C01-repeated-qualifier-key" else ""
+    let tagged := inClass && !pass && confined && oneKept
+    let kf := if tagged then " kf:C01-repeated-qualifier-key" else ""
     let triv := if nfeat == 0 && c.recs.all (fun r => r.refs.isEmpty) then "triv:" else ""
     let cls := triv ++ c.mode ++ "/r" ++ toString c.recs.length
       ++ (if c.lay.finalNewline then "/nl" else "/nonl")
       ++ (if nfeat == 0 then "/f0" else if nfeat ≤ 5 then "/f1-5" else "/f6+")
       ++ (if multiloc then "/multiloc" else "") ++ (if pairs.any (fun p => orgOmitted p.1 p.2) then "/noorg" else "")
       ++ (if c.recs.all quoteFreeValues then "" else "/quote-in-value") ++ (if repaired then "/kf-repaired" else "") ++ kf
-    { corr := outN == m || (inDom && inClass && confined), judge := if inDom then some pass else none, cls := cls
+    -- a difference from the model that lies in the unjudged quoted values only, on a reply that is otherwise accepted
+    -- (passing or tagged), is out-of-domain drift: reported as an unjudged DIFF, which `check` counts and prints
+    let quoteDrift := hasQ && outN != m && (pass || tagged) &&
+      (match replyRecs, unser m with | some qs, some ms => eqMasked quotedKeys c.recs qs ms | _, _ => false)
+    { corr := outN == m || (inDom && (repaired || tagged) && !quoteDrift)
+      judge := if inDom && !quoteDrift then some pass else none, cls := cls
       detail := if outN == m && outN == expected then "" else
         "model: " ++ lineOf (m.map fun x => if x.length > 300 then (x.take 300).toString ++ "…" else x) ++ "  expected: "
           ++ lineOf (expected.map fun x => if x.length > 300 then (x.take 300).toString ++ "…" else x) }
